@@ -9,7 +9,9 @@ alias   : programs over three list variables and a map/object built from sequenc
           chosen by symbolic selectors (aliasing assignment, copying operations, mutators through
           variables / parameters / closures / nested containers, non-mutating library calls),
           read back at the end and compared with a reference heap model (Python object identity).
-fresh   : results of non-mutating operations are independent of their inputs."""
+fresh   : results of non-mutating operations are independent of their inputs.
+mutidx  : insert_at / delete_at / element assignment with a symbolic index through an alias: the documented
+          effect (none when out of bounds) on the list and on every alias of it."""
 import ckl.values as V
 
 from harness import c13
@@ -57,6 +59,9 @@ def cells(tier, seed):
         out.append({"k": "alias", "first": first, "n": n})
     for i in range(len(FRESH)):
         out.append({"k": "fresh", "i": i})
+    for op in MUTIDX:
+        for ln in range(0, 4 if tier == "quick" else 6):
+            out.append({"k": "mutidx", "op": op, "len": ln, "R": 9 if tier == "quick" else 24})
     return out
 
 
@@ -150,7 +155,50 @@ def render(m):
     return str(m)
 
 
+MUTIDX = ["insert_at", "delete_at", "assign"]
+
+
+def run_mutidx(ctx, cell):
+    """a positional mutator with a SYMBOLIC index, applied through an alias: the list changes exactly as documented
+    (out-of-bounds: not at all), every alias (variable, container element, closure) sees the same list, an equal
+    but distinct list does not"""
+    ctx.reach("alias")
+    op, n, R = cell["op"], cell["len"], cell["R"]
+    key = "C16:mutidx:" + op
+    base = [10 + q for q in range(n)]
+    i = ctx.int("i", -R, R)
+    env = {"a": vlist([vint(x) for x in base]), "i": vint(i)}
+    call = {"insert_at": "insert_at(b, i, 99)", "delete_at": "delete_at(b, i)", "assign": "b[i] = 99"}[op]
+    text = ("def b = a; def box = [a]; def g() a; def other = a + []; def m = <<<'k' => a>>>; "
+            "def r = do %s; 'ok' catch all 'err' end; [r, a, b, box[0], g(), m['k'], other]" % call)
+    out = run_ckl(text, env)
+    exp_r = "ok"
+    if op == "insert_at":
+        k = i + n + 1 if i < 0 else i          # documented: -1 appends; out of bounds: not changed at all
+        after = base if (k < 0 or k > n) else base[:int(k)] + [99] + base[int(k):]
+    elif op == "delete_at":
+        k = i + n if i < 0 else i
+        after = base if (k < 0 or k >= n) else base[:int(k)] + base[int(k) + 1:]
+    else:
+        k = i + n if i < 0 else i
+        if k < 0 or k >= n:
+            after, exp_r = base, "err"
+        else:
+            after = base[:int(k)] + [99] + base[int(k) + 1:]
+    detail = lambda: {"program": text, "list": base, "i": int(i), "got": ctx.plain(out)}
+    if out.kind != "ok":
+        ctx.fail("%s:%s:%s" % (key, out.kind, out.hostname() or "error"), detail)
+        return out
+    A = lambda: vlist([vint(x) for x in after])
+    exp = vlist([vstr(exp_r), A(), A(), A(), A(), A(), vlist([vint(x) for x in base])])
+    ctx.check(out.value == exp, key + ":list-or-alias-differs-from-documented-effect",
+              lambda: dict(detail(), expected=str(exp)))
+    return out
+
+
 def run(ctx, cell):
+    if cell["k"] == "mutidx":
+        return run_mutidx(ctx, cell)
     if cell.get("k2") == "preserve":
         return run_preserve(ctx, cell)
     if cell["k"] == "alias":
